@@ -148,6 +148,23 @@ def dbg(a):
     if k == 'stmt': return 'Stmt([%s])' % ', '.join(dbg(x) for x in a[1])
     raise ValueError(k)
 
+def describe(a):
+    """describe() with the documented default descriptors (descriptor.rs defaults; literals render as expr())"""
+    k = a[0]
+    if k == 'num': return num_text(a[1])
+    if k == 'bool': return a[1]
+    if k == 'str': return ("'" + a[1] + "'") if '"' in a[1] else ('"' + a[1] + '"')
+    if k == 'ref': return a[1]
+    if k == 'un': return a[1] + describe(a[2])
+    if k == 'bin': return describe(a[2]) + a[1] + describe(a[3])
+    if k == 'post': return describe(a[1]) + a[2]
+    if k == 'cond': return describe(a[1]) + '?' + describe(a[2]) + ':' + describe(a[3])
+    if k == 'call': return a[1] + '(' + ','.join(describe(x) for x in a[2]) + ')'
+    if k == 'list': return '[' + ','.join(describe(x) for x in a[1]) + ']'
+    if k == 'map': return '{' + ','.join(describe(x) + ':' + describe(y) for x, y in a[1]) + '}'
+    if k == 'stmt': return ';'.join(describe(x) for x in a[1])
+    raise ValueError(k)
+
 class P:
     def __init__(self, toks, T):
         self.t, self.i, self.T = toks, 0, T
